@@ -37,11 +37,16 @@ static uint8_t PRE_ST[MAXT][32];       /* serialised seeds prepared before the t
 static int pre_bad;                    /* a harness input did not get the status the harness was built around */
 static char PRE_UNS[2][PSTR];          /* H7: well-formed phrases (English / Spanish as emitted) of a seed whose user feature 4 is not enabled */
 static char PRE_OK[2][PSTR];           /* H7: phrases of ordinary seeds (Spanish as emitted / English) */
+static char PRE_AMB[2][PSTR];          /* H9: two different checksum-valid phrases made only of characters that both Chinese lists contain (ambiguous) */
 static uint8_t PRE_UNS_ST[32];         /* H7: the serialised form of the same unsupported seed */
 static void prep_inputs(void) {
     for (int t = 0; t < 3; t++) { rseed s; memset(&s, 0, sizeof s); for (int i = 0; i < 19; i++) s.secret[i] = (uint8_t)(t * 53 + i * 11 + 1); s.secret[18] &= 0x3F; s.birthday = 100 + (unsigned)t; s.features = (unsigned)t & 3; ref_storage(&s, PRE_ST[t]); }
     char big[2048]; rseed u; memset(&u, 0, sizeof u); for (int i = 0; i < 19; i++) u.secret[i] = (uint8_t)(i * 29 + 5); u.secret[18] &= 0x3F; u.birthday = 77; u.features = 4;
     ref_phrase(&u, 0, 6, big, 0); snprintf(PRE_UNS[0], PSTR, "%s", big); ref_phrase(&u, 3, 6, big, 0); snprintf(PRE_UNS[1], PSTR, "%s", big); ref_storage(&u, PRE_UNS_ST);
+    { unsigned cand[R_NW]; int nc = 0; uint64_t ps = 0xA3B7; for (unsigned i = 0; i < R_NW; i++) if (ref_recognise(9, RL[8].w[i]) >= 0) cand[nc++] = i;
+      for (int w = 0; w < 2; w++) { PRE_AMB[w][0] = 0; for (int attempt = 0; attempt < 40000 && nc > 16; attempt++) { unsigned c[16]; for (int i = 1; i < 16; i++) c[i] = cand[prng(&ps) % (unsigned)nc]; if (c[2] & 1) continue; c[3] &= ~1u; c[4] &= ~1u; c[5] &= ~1u; c[0] = 0; c[0] = ref_eval(c);
+            int ok = 0; for (int i = 0; i < nc; i++) if (cand[i] == c[0]) ok = 1; for (int i = 3; i <= 5; i++) { int in = 0; for (int q = 0; q < nc; q++) if (cand[q] == c[i]) in = 1; if (!in) ok = 0; } if (!ok) continue;
+            ref_phrase_from_idx(c, 8, big, 0); snprintf(PRE_AMB[w], PSTR, "%s", big); break; } } }
     u.features = 1; u.secret[0] ^= 0x55; ref_phrase(&u, 3, 6, big, 0); snprintf(PRE_OK[0], PSTR, "%s", big); u.secret[1] ^= 0x33; ref_phrase(&u, 0, 6, big, 0); snprintf(PRE_OK[1], PSTR, "%s", big);
 }
 static void script_h(int HARNESS_, int id, int slot) {
@@ -73,6 +78,10 @@ static void script_h(int HARNESS_, int id, int slot) {
             s = NULL; r = polyseed_decode_explicit(PRE_UNS[1], 6, polyseed_get_lang(3), &s); T(slot, (uint64_t)r); if (r == 0) polyseed_free(s); if (r != ST_UNSUPPORTED && !CONCURRENT) pre_bad = 1;
             s = NULL; r = polyseed_decode(PRE_OK[1], 6, NULL, &s); T(slot, (uint64_t)r); if (r == 0) { T(slot, polyseed_get_feature(s, 7)); polyseed_free(s); }
         }
+    } else if (HARNESS_ == 9) {         /* ambiguous phrases: automatic detection says "multiple languages", then the caller decodes explicitly in one of them */
+        r = polyseed_decode(PRE_AMB[id & 1], 0, &l, &s); T(slot, (uint64_t)r); if (r == 0) polyseed_free(s); if (r != ST_MULT_LANG && !CONCURRENT) pre_bad = 1;
+        s = NULL; r = polyseed_decode_explicit(PRE_AMB[id & 1], 0, polyseed_get_lang(id & 1 ? 9 : 8), &s); T(slot, (uint64_t)r); if (r == 0) { polyseed_store(s, st); Tbuf(slot, st, 32); polyseed_free(s); } else if (!CONCURRENT) pre_bad = 1;
+        s = NULL; r = polyseed_decode(PRE_AMB[id & 1], 0, NULL, &s); T(slot, (uint64_t)r); if (r == 0) polyseed_free(s);
     } else if (HARNESS_ == 8) {         /* shared recycling allocator: blocks released by one thread are handed to the other */
         if (id == 0) { r = polyseed_load(PRE_ST[0], &s); T(slot, (uint64_t)r); polyseed_free(s); s = NULL; r = polyseed_create(1, &s); T(slot, (uint64_t)r); polyseed_store(s, st); Tbuf(slot, st, 32); polyseed_free(s); }
         else { r = polyseed_create(0, &s); T(slot, (uint64_t)r); polyseed_store(s, st); Tbuf(slot, st, 32); polyseed_free(s); s = NULL; r = polyseed_load(PRE_ST[1], &s); T(slot, (uint64_t)r); if (r == 0) { T(slot, polyseed_get_birthday(s)); polyseed_free(s); } }
